@@ -242,13 +242,23 @@ theorem orSrc_hintOk (l r : Src) (hl : l.HintOkAll) (hr : r.HintOkAll) (cl : Can
       have := binSizeHi_bound l r hl hr n (by simpa using hn)
       omega
 
+theorem xorLast_ok (l r : Src) (q : Rng) (h : xorLast l r = some q) :
+    orLast l r = some q ∧ ∃ r1 r2, l.last = some r1 ∧ r.last = some r2 ∧ r1.2 ≠ r2.2 := by
+  unfold xorLast at h
+  split at h
+  · rename_i r1 r2 h1 h2
+    split at h
+    · cases h
+    · exact ⟨h, r1, r2, h1, h2, by assumption⟩
+  · cases h
+
 theorem xorSrc_hintOk (l r : Src) (hl : l.HintOkAll) (hr : r.HintOkAll) (cl : Canon l.items) (cr : Canon r.items) :
     (xorSrc l r).HintOkAll := by
   have sp := xorLoop_spec l.items r.items 0 cl cr
   have len := xorLoop_length l.items r.items
   refine ⟨⟨?_, Nat.zero_le _, ?_⟩, trivial⟩
   · intro q hq
-    refine orLast_ok l r hl.1 hr.1 _ sp.1 (fun x hx => ?_) q hq
+    refine orLast_ok l r hl.1 hr.1 _ sp.1 (fun x hx => ?_) q (xorLast_ok l r q hq).1
     have := (sp.2 x).1 hx
     by_cases h : mem x l.items
     · exact Or.inl h
